@@ -246,6 +246,18 @@ func c18Round(c *core.Case) (overlap bool, err error) {
 	arena = append(arena, "   \n\t 1 "...) // whitespace behind the last record too
 	off := 0
 	for i := range c.Steps {
+		if c.Steps[i].Kind == "prefix" && len(c.Steps[i].Ints) >= 2 && int(c.Steps[i].Ints[0]) < i && docs[int(c.Steps[i].Ints[0])] != nil {
+			// a shorter view of an earlier input that starts at the SAME byte (a message and its
+			// header, a document and a truncation of it): same address, different length
+			base := docs[int(c.Steps[i].Ints[0])]
+			k := int(c.Steps[i].Ints[1])
+			if k < 0 || k > len(base) {
+				k = len(base)
+			}
+			docs[i] = base[:k]
+			snaps[i] = append([]byte(nil), docs[i]...)
+			continue
+		}
 		n := len(c.Steps[i].In)
 		docs[i] = arena[off : off+n] // capacity deliberately not clipped
 		snaps[i] = append([]byte(nil), docs[i]...)
